@@ -97,7 +97,12 @@ func (svr *Server) handshakeDataChannel(wsc websocket.Conn) {
 	si, ok := svr.sessions.Load(channelID)
 	if ok {
 		session = si.(*Session)
-	} else {
+	}
+	// 数据通道只能加入同一路径、同一用户建立的控制通道（http 层只验证了数据通道自身路径的权限）
+	if session != nil && (session.wsPath != wsc.Path() || session.wsUser != wsc.Username()) {
+		session = nil
+	}
+	if session == nil {
 		code = 404
 		text = "NOT FOUND"
 	}
